@@ -489,16 +489,15 @@ pub fn gen_c14(out: &mut Out, tier: &str, _rng: &mut Rng) {
                 emit(out, 14, &case(&rc, TOp::CopyWithin(x0, y0, x1, y1, dx, dy)));
             } }
         } } } }
-        // destination corners near usize::MAX, both profiles: sums that wrap onto an in-range
-        // value without overflow checks.  Non-empty sources only: a zero-area source whose
-        // wrapped sum passes the assertions returns silently in release builds (DESIGN 7:
-        // nothing is copied; outside C14's quantifier)
+        // destination corners near usize::MAX, both profiles: sums that would wrap onto an
+        // in-range value without overflow checks (the assertions use checked sums since the
+        // D14 repair); zero-area sources included
         if nc > 0 && nr > 0 {
             let mut bigs = vec![u64::MAX, u64::MAX - 1, u64::MAX - 2, 1 << 63, 1 << 62, (1 << 63) + 1, 1 << 32];
             for k in 1..=nc.max(nr) + 1 { bigs.push(u64::MAX - k + 1); bigs.push((u64::MAX - k + 1).wrapping_add(1 << 63)); }
             bigs.sort(); bigs.dedup();
             for &big in &bigs {
-                for x0 in 0..nc { for x1 in x0 + 1..=nc { for y0 in 0..nr { for y1 in y0 + 1..=nr {
+                for x0 in 0..=nc { for x1 in x0..=nc { for y0 in 0..=nr { for y1 in y0..=nr {
                     if tier == "quick" && (x1 - x0 > 2 || y1 - y0 > 2) && (x1, y1) != (nc, nr) { continue; }
                     for small in [0, 1, nr.saturating_sub(1)] {
                         emit(out, 14, &case(&rc, TOp::CopyWithin(x0, y0, x1, y1, big, small)));
